@@ -116,7 +116,7 @@ def run(prop, cases, macro="ascent", tag=None, coq_timeout=40, spec="naive"):
     jobs = []
     for c in cases:
         scripts = [[("set", inp), ("run",), ("snap",)] for inp in c["inputs"]]
-        jobs.append(dict(id=c["id"], text=texts[c["id"]], macro=macro, rels=c["prog"]["rels"], scripts=scripts))
+        jobs.append(dict(id=c["id"], text=dl.rust_program_text(dict(c["prog"], attrs=[])), attrs=c["prog"].get("attrs", []), macro=macro, rels=c["prog"]["rels"], scripts=scripts))
     impl = prog.build_and_run(tag, jobs)
     groups, gids, invs = [], [], {}
     parse_errors = {}
